@@ -119,6 +119,10 @@ class C19(Property):
         "occurs while the model has a writer between ccreate and cpop (partialWriter); file-system visibility order of create/close is CPython+OS",
         "OpenmlSource network path: HttpSource and time in coba.environments.openml are replaced by fakes (as the unit tests do)",
         "fairness: the scheduler gives every caller a turn again and again (FairSched); OS thread/process scheduling is assumed fair in this sense",
+        "translator harness/props/c19_proto.py (ast only): a small symbolic walk of ConcurrentCacher.get_set / rmv that lists the calls in evaluation order for "
+        "each combination of membership answers / inner call raising (handler tests answered as the state dictates: _locks = -1 after a failed populate), "
+        "guard and updates of the five `with self._lock:` blocks as (operator, literal) pairs, and the key expressions of DiskCacher._cache_name / "
+        "ConcurrentCacher._index as text; a source it does not understand is reported as not extracted and fails the obligation",
     ]
     assumptions = [
         "a caller never operates, inside a with-block, on a different key whose 16-bit hash collides with one it is reading (property quantifier)",
@@ -132,12 +136,20 @@ class C19(Property):
                                  "the code with fixes/C19-nested-write-wait-raises.diff (the harness probes which variant it runs and uses the matching model)",
         "fair_termination": "same hypothesis Hier (unrepaired code); deadlock_free_ranked / no_wait_cycle_ranked / fair_termination_ranked weaken it to an "
                             "acyclic static lock order (any rank `ord` compatible with the slots; the harness finds it by topological sorting)",
+        "deadlock_free_getset_only": "second hypothesis-weakening of deadlock freedom besides the ranked one: no rmv in the programs (GetSetOnly) and no two different "
+                                     "keys of the programs in one slot (CollisionFree); any nesting order, also cyclic. Both hypotheses are necessary "
+                                     "(cross_nesting_counterexample, getset_only_collision_counterexample = the two forms of C19-F1)",
+        "chunked_progress_bounded": "the variant of the file-level system decreases on chunk/close steps of SUCCESSFUL getters only: a failing getter may write any "
+                                    "number of chunks before it raises in the model, so fair termination of the file-level system is not stated (writer_progress, "
+                                    "chunked_no_caller_stuck, chunked_deadlock_free are)",
         "zero_length_is_absent_concurrent_partial": "needs the file not to be zero-length: through ConcurrentCacher a zero-length file raises (C19-F3, "
                                                     "concurrent_zero_length_counterexample); test_overwrite_empty_cache pins the `in` semantics, no small repair",
     }
 
     # ------------------------------------------------------------------ generation
     KEYSETS = None
+    # distinct legal DiskCacher keys that a "normalising" file-name function would map to one file
+    NAME_TWINS = [("openml 42", "openml 42 "), (" k1", "k1"), ("Kx", "kx"), ("x_y", "x y"), ("x.", "x"), ("\u212b1", "\u00c51"), ("\ufb01le", "file")]
 
     def pre_build(self):
         """translator step: constants of the lock table and the download semaphore, read with `ast` from the CURRENT source"""
@@ -177,7 +189,16 @@ class C19(Property):
             os.makedirs(os.path.dirname(path), exist_ok=True)
             with open(path, "w", encoding="utf-8") as f:
                 f.write(body)
-        return ["C19 constants from source: %s%s" % (vals, "" if ok else " (NOT all extracted: source reshaped)")]
+        # phase 5 / round h: call order of get_set / rmv along every path, the five lock blocks, and the key expressions that name the file
+        # and the lock slot -> Generated/C19Protocol.lean (obligations generated_call_order, generated_lock_blocks, generated_key_identity)
+        from props import c19_proto
+        text, how = c19_proto.generate(repo)
+        ppath = os.path.join(lean.LEAN_DIR, "CobaVerif", "Generated", "C19Protocol.lean")
+        pold = open(ppath, encoding="utf-8").read() if os.path.exists(ppath) else None
+        if pold != text:
+            with open(ppath, "w", encoding="utf-8") as f:
+                f.write(text)
+        return ["C19 constants from source: %s%s" % (vals, "" if ok else " (NOT all extracted: source reshaped)"), "C19 protocol from source: " + how]
 
     def keysets(self):
         if C19.KEYSETS is None:
@@ -200,7 +221,7 @@ class C19(Property):
 
     def gen_seg(self, rng, nkeys, idx, mode, parts, vctr, base_ok=True):
         seg, st = [], []
-        budget = rng.choice([1, 1, 2, 2, 3, 4])
+        budget = rng.choice([1, 1, 2, 2, 3, 4]) if mode != "gsonly" else rng.choice([2, 3, 3, 4, 5])
         while budget > 0:
             budget -= 1
             allowed = list(range(nkeys))
@@ -224,7 +245,17 @@ class C19(Property):
             if r >= 70 and k in st and rng.chance(0.7):
                 fresh = [x for x in allowed if x not in st]
                 k = rng.choice(fresh) if fresh else k
-            if r < 70 and len(st) < 3:
+            if mode == "gsonly":
+                # get_set only (no_wait_cycle_getset_only): any key order, also crossing ones; prefer a key not yet held
+                if len(st) >= 3:
+                    seg.append(["exit"])
+                    st.pop()
+                    continue
+                fresh = [x for x in allowed if x not in st]
+                k = rng.choice(fresh) if fresh and rng.chance(0.85) else k
+                seg.append(["gs", k] + self.gen_getter(rng, parts, vctr, base_ok))
+                st.append(k)
+            elif r < 70 and len(st) < 3:
                 seg.append(["gs", k] + self.gen_getter(rng, parts, vctr, base_ok))
                 st.append(k)
             else:
@@ -233,13 +264,18 @@ class C19(Property):
             seg += [["exit"]] * len(st)     # explicit exits; otherwise the end of the segment closes the blocks
         return seg
 
-    def gen_sched_case(self, rng, tier, contention=False):
+    def gen_sched_case(self, rng, tier, contention=False, gsonly=False):
         keys = list(rng.wchoice(self.keysets()))
         if contention:
             keys = list(rng.choice([["a"], [R.PAIRS[0][0], R.PAIRS[0][1]], ["a", "b"]]))
+        if gsonly:
+            # phase 5: get_set-only programs on collision-free keys with arbitrary (crossing, cyclic) nesting orders
+            keys = list(rng.choice([["a", "b"], ["a", "b"], ["a", "b", "c"], ["a", "b", "c"], ["a", "b", "c", "d"]]))
         idx = [R.kidx(k) for k in keys]
         n = rng.wchoice([(50, 2), (35, 3), (15, 4)])
         mode = rng.wchoice([(82, "hier"), (13, "wn"), (5, "any")])
+        if gsonly:
+            mode = "gsonly"
         parts = rng.choice([1, 2, 2, 3])
         vctr = [0]
         progs = []
@@ -350,6 +386,17 @@ class C19(Property):
             return self.gen_disk_case(rng, tier)
         if r < 128:
             return self.gen_mp_case(rng, tier)
+        if r < 198:
+            return self.gen_sched_case(rng, tier, gsonly=True)
+        if r < 201:
+            return {"kind": "proto", "what": rng.choice(["get_set", "get_set", "rmv"]), "in1": rng.chance(0.5), "in2": rng.chance(0.5), "fails": rng.chance(0.4),
+                    "guard": [rng.randint(0, 5), rng.randint(-1, 1)], "upd": [rng.randint(0, 2), rng.randint(-1, 1)]}
+        if r < 215:
+            # round h: twin keys (one file under a normalising name function) with the second caller inside the first one's write
+            k1, k2 = rng.choice(self.NAME_TWINS)
+            return {"kind": "sched", "inner": "disk", "keys": [k1, k2], "parts": rng.choice([2, 3]), "seed": rng.below(2 ** 32),
+                    "sched": {"mode": "pb", "switch": [rng.randint(6, 18), rng.randint(2, 8), rng.randint(1, 5)]},
+                    "progs": [[[["gs", 0, 1], ["exit"]]], [[["gs", 1, 2], ["exit"]], [["gs", 0, 3], ["exit"]]]]}
         return self.gen_sched_case(rng, tier)
 
     def search(self, rng, tier):
@@ -364,6 +411,8 @@ class C19(Property):
             return self.gen_disk_case(rng, tier)
         if r < 18:
             return self.gen_mp_case(rng, tier)
+        if r < 28:
+            return self.gen_sched_case(rng, tier, gsonly=True)
         return self.gen_sched_case(rng, tier, contention=rng.chance(0.7))
 
     def corpus(self):
@@ -458,6 +507,32 @@ class C19(Property):
         for sw in (8, 10, 12):
             cs.append({"kind": "sched", "inner": "disk", "keys": ["a"], "parts": 2, "seed": sw, "sched": {"mode": "pb", "switch": [sw, 3]},
                        "progs": [[[["gs", 0, None, 1, "base"]], [["gs", 0, 4], ["raise", "KeyboardInterrupt"]]], [[["gs", 0, 2], ["exit"]]]]})
+        # phase 5: get_set-only programs with a CYCLIC lock order on collision-free keys (no_wait_cycle_getset_only): the crossing pair
+        # (the Lean example's programs), the three-way ring, with failing getters / raising bodies; a hang here is a violation
+        cross = [[[["gs", 0, 1], ["gs", 1, 2], ["exit"], ["exit"]]], [[["gs", 1, 3], ["gs", 0, 4], ["exit"], ["exit"]]]]
+        cs.append({"kind": "sched", "keys": ["a", "b"], "parts": 1, "seed": 0, "sched": {"mode": "list", "list": [0] * 14 + [1] * 14, "sticky": False}, "progs": cross})
+        for sw in range(6, 30, 3):
+            cs.append({"kind": "sched", "keys": ["a", "b"], "parts": 1, "seed": sw, "sched": {"mode": "pb", "switch": [sw, 4, 3]}, "progs": cross})
+            cs.append({"kind": "sched", "keys": ["a", "b", "c"], "parts": 2, "seed": sw, "sched": {"mode": "pb", "switch": [sw, sw // 2, 5, 2]},
+                       "progs": [[[["gs", 0, 1], ["gs", 1, 2]]], [[["gs", 1, 3], ["gs", 2, None, 1]], [["gs", 2, 4], ["gs", 0, 5], ["raise"]]],
+                                 [[["gs", 2, 6], ["gs", 0, 7], ["gs", 1, 8]]]]})
+        cs.append({"kind": "sched", "keys": ["a", "b", "c"], "parts": 1, "seed": 0,
+                   "sched": {"mode": "list", "list": [0] * 14 + [1] * 14 + [2] * 14, "sticky": False},
+                   "progs": [[[["gs", 0, 1], ["gs", 1, 2]]], [[["gs", 1, 3], ["gs", 2, 4]]], [[["gs", 2, 5], ["gs", 0, 6]]]]})
+        # phase 5: call order of get_set / rmv along every path, recorded on the real class (= model = extracted, generated_call_order)
+        for in1 in (False, True):
+            for in2 in (False, True):
+                for fl in (False, True):
+                    cs.append({"kind": "proto", "what": "get_set", "in1": in1, "in2": in2, "fails": fl, "guard": [(in1 * 2 + in2 * 1 + fl * 3) % 6, in2 - fl], "upd": [(in1 + in2 + fl) % 3, 1 - 2 * fl]})
+            for fl in (False, True):
+                cs.append({"kind": "proto", "what": "rmv", "in1": in1, "fails": fl})
+        # round h: key PAIRS that a normalising file-name function would merge (surrounding blanks, case, '_' vs blank, '.' suffix,
+        # unicode compatibility twins; all legal DiskCacher keys with different lock slots) through ConcurrentCacher(DiskCacher), the
+        # second caller scheduled inside the first one's chunked write: each caller must get its OWN complete value
+        for k1, k2 in self.NAME_TWINS:
+            for sw in (8, 10, 12, 14, 17):
+                cs.append({"kind": "sched", "inner": "disk", "keys": [k1, k2], "parts": 3, "seed": sw, "sched": {"mode": "pb", "switch": [sw, 6, 3]},
+                           "progs": [[[["gs", 0, 1], ["exit"]]], [[["gs", 1, 2], ["exit"]], [["gs", 0, 3], ["exit"]]]]})
         cs.append({"kind": "depth", "variant": "nest", "n": 200})
         cs.append({"kind": "depth", "variant": "nest", "n": 128})
         cs.append({"kind": "depth", "variant": "threads", "n": 150})
@@ -511,6 +586,8 @@ class C19(Property):
             return self.eval_index(case, driver)
         if kind == "glue":
             return self.eval_glue(case, driver)
+        if kind == "proto":
+            return self.eval_proto(case, driver)
         return self.eval_sched(case, driver)
 
     def eval_sched(self, case, driver):
@@ -522,12 +599,22 @@ class C19(Property):
         hr = all(hier(idx, p) for p in progs)
         ordk = static_rank(idx, progs)       # acyclic static lock order (weaker than Hier): deadlock_free_ranked applies
         repaired = bool(res.get("repaired"))
+        # phase 5: get_set-only programs whose keys do not collide are deadlock free whatever their nesting order
+        # (no_wait_cycle_getset_only / deadlock_free_getset_only, proved over the ghost-clock refinement)
+        used = sorted({i[1] for p in progs for seg in p for i in seg if i[0] in ("gs", "rmv")})
+        gs_only = all(i[0] != "rmv" for p in progs for seg in p for i in seg)
+        coll_free = all(idx[a] != idx[b] for a in used for b in used if a != b)
+        gs_free = gs_only and coll_free
         if repaired:
             # with fixes/C19-nested-write-wait-raises.diff deadlock freedom is proved for all programs (deadlock_free_repaired)
             tags.append("code:repaired-nested-write-wait")
             in_q, hr_eff = True, True
         else:
-            in_q, hr_eff = wn, hr or (wn and ordk is not None)
+            in_q, hr_eff = wn, hr or (wn and ordk is not None) or gs_free
+        if gs_free:
+            tags.append("getset-only:collision-free")
+            if not hr and ordk is None:
+                tags.append("getset-only:cyclic-lock-order")
         tags.append("threads:%d" % len(progs))
         tags.append("keys:%d" % len(case["keys"]))
         tags.append("collide" if len(set(idx)) < len(idx) else "nocollide")
@@ -679,6 +766,55 @@ class C19(Property):
                     node = succ.get(node)
                 if node is None:
                     fails.append(F("C", "model: deadlocked state without a wait-for cycle %s" % ans["waitEdges"], "C:cycle"))
+            # phase 5: ghost clock.  (A) the miss / populate times read off the real trace equal the instrumented model's;
+            # (C) the clock invariant holds in the model's final state, and a collision-free get_set-only system is never deadlocked
+            gh = ans.get("ghost")
+            if gh is not None and not repaired and not bad and ans["stuck"] is None and (gs_only or case.get("inner") != "disk"):
+                itm, itp = [0] * len(progs), [0] * len(idx)
+                for n_, (t, e) in enumerate(res["events"]):
+                    if e[0] == "contains" and e[2] is False and 0 <= t < len(itm):
+                        itm[t] = n_
+                    if e[0] == "cpop" and isinstance(e[1], int) and 0 <= e[1] < len(itp):
+                        itp[e[1]] = n_
+                if gh["clock"] != len(res["events"]) or gh["tm"] != itm or gh["tp"] != itp:
+                    fails.append(F("A", "ghost clock: times of the callers' latest miss / of the keys' latest populate in the real trace %s %s (%d steps), "
+                                   "instrumented model %s %s (%d)" % (itm, itp, len(res["events"]), gh["tm"], gh["tp"], gh["clock"]), "A:ghost-stamps"))
+                if gs_only:
+                    tags.append("ghost:checked")
+                    if any(m is not None for m in gh["missKey"]):
+                        tags.append("ghost:state-with-caller-between-miss-and-write-lock")
+                    if not gh["stampsOK"]:
+                        fails.append(F("C", "model: ghost-clock invariant violated in the final state of a get_set-only run: tm %s tp %s clock %d missKey %s"
+                                       % (gh["tm"], gh["tp"], gh["clock"], gh["missKey"]), "C:ghost-invariant"))
+                    if not gh["allStampsOK"]:
+                        fails.append(F("C", "model: ghost-clock invariant violated in an intermediate state of a get_set-only run", "C:ghost-invariant"))
+                    if gh["waitStates"]:
+                        tags.append("ghost:states-with-wait-edges")
+                    if gs_free and (gh["cycleStates"] or gh["deadlockedStates"]):
+                        fails.append(F("C", "model: get_set-only collision-free programs but %d visited states have a wait-for cycle, %d are deadlocked"
+                                       % (gh["cycleStates"], gh["deadlockedStates"]), "C:getset-only-cycle"))
+                    if gs_free and gh["waitStates"]:
+                        tags.append("getset-only:acyclic-wait-edges-seen")
+                    if ans["deadlocked"] and not gh["cycleStates"]:
+                        fails.append(F("C", "model: deadlocked final state but the cycle scan found no wait-for cycle", "C:cycle"))
+                    if gh["arr"] != ans["arr"] or gh["terminal"] != all(ans["terminal"]):
+                        fails.append(F("C", "model: instrumented run and plain run disagree %s %s" % (gh["arr"], ans["arr"]), "C:ghost-refines"))
+            if "getSetOnly" in ans:
+                if bool(all(ans["getSetOnly"])) != gs_only or bool(ans["collisionFree"]) != coll_free or sorted(set(ans["progKeys"])) != used:
+                    fails.append(F("C", "GetSetOnly/CollisionFree computed differently by harness (%s %s %s) and model (%s %s %s)"
+                                   % (gs_only, coll_free, used, ans["getSetOnly"], ans["collisionFree"], ans["progKeys"]), "C:predicates"))
+                if gs_free and not repaired and (ans["deadlocked"] or any(e[0] == e[1] for e in ans["waitEdges"])):
+                    fails.append(F("C", "model: get_set-only collision-free programs but deadlocked / self wait edge %s" % ans["waitEdges"], "C:getset-only-deadlock"))
+                if gs_free and not repaired and ans["waitEdges"]:
+                    # no_wait_cycle_getset_only: the wait-for graph of the final state is acyclic
+                    succ = {}
+                    for a_, b_ in ans["waitEdges"]:
+                        succ.setdefault(a_, []).append(b_)
+                    def cyc(n0, path):
+                        return any(m_ in path or cyc(m_, path | {m_}) for m_ in succ.get(n0, []))
+                    if any(cyc(a_, {a_}) for a_ in succ):
+                        fails.append(F("C", "model: get_set-only collision-free programs but the wait-for graph has a cycle %s" % ans["waitEdges"], "C:getset-only-cycle"))
+                    tags.append("getset-only:wait-edges-in-final-state")
             if ordk is not None and not all(ans["hierRanked"]):
                 fails.append(F("C", "the rank computed from the static lock-order graph does not satisfy Hier ord in the model: %s" % ordk, "C:ranked"))
             if all(ans["hier"]) and ordk is None:
@@ -765,6 +901,19 @@ class C19(Property):
                 fails.append(F("C", "model: a cget found %s on disk" % m[2], "C:chunked-no-partial-read"))
         if not ans["dinv"]:
             fails.append(F("C", "model: files and cache disagree at the end: %s %s" % (ans["files"], ans["cache"]), "C:chunked-files-consistent"))
+        # phase 5: writer progress / nobody stuck / variant, checked in EVERY state the real run visited (writer_progress,
+        # chunked_no_caller_stuck, chunked_progress_bounded); what the implementation's writers still had to write at the end
+        if "stuckStates" in ans:
+            if ans["stuckStates"]:
+                fails.append(F("C", "model: %d visited states of the file-level system have an unfinished caller without any enabled action" % ans["stuckStates"],
+                               "C:chunked-no-caller-stuck"))
+            if ans["badVariantSteps"]:
+                fails.append(F("C", "model: %d steps of the file-level run did not decrease the variant (St.measure / writeLeft)" % ans["badVariantSteps"],
+                               "C:chunked-progress-bounded"))
+            if ans["writerStates"]:
+                tags.append("disk-chunks:writer-progress-checked-mid-entry")
+            if res["status"] == "ok" and any(ans["writeLeft"]):
+                fails.append(F("A", "all callers have finished but the model still has something left to write: %s" % ans["writeLeft"], "A:disk-write-left"))
         if res["status"] == "ok":
             mfiles = [None if f[0] == "absent" else f[0] for f in ans["files"]]
             ifiles = [None if c is None else "closed" for c in res["cache"]]
@@ -902,6 +1051,94 @@ class C19(Property):
         if not case.get("bad") and o.get("outcome") != "ok":
             fails.append(F("B", "%s: %s" % (where, o.get("outcome")), "openml-read-failed"))
         return {"fails": fails, "nontrivial": bool(case.get("first_read", True)), "tags": tags, "impl": o, "model": None}
+
+    def eval_proto(self, case, driver):
+        """phase 5: the calls ConcurrentCacher.get_set / rmv really make along one path (recorded on the real class, single caller, an
+        inner cacher whose membership answers are scripted) = the model's `modelGetSetPath` / `modelRmvPath` (= the extracted ones by
+        generated_call_order); plus the guard / update semantics the lock-block obligation uses"""
+        from contextlib import nullcontext
+        import coba.context.cachers as M
+        fails, tags = [], ["proto:" + case["what"]]
+        calls, depth = [], [0]
+
+        class Boom(Exception):
+            pass
+
+        class Inner:
+            def __init__(self, answers):
+                self.answers = list(answers)
+
+            def __contains__(self, key):
+                calls.append(6)
+                return self.answers.pop(0) if self.answers else False
+
+            def get_set(self, key, getter):
+                calls.append(7 if getter is None else 8)
+                if getter is not None and case.get("fails"):
+                    raise Boom()
+                return nullcontext(1)
+
+            def rmv(self, key):
+                calls.append(13)
+                if case.get("fails"):
+                    raise Boom()
+
+        def rec(code, name, top_only=False):
+            orig = getattr(M.ConcurrentCacher, name)
+
+            def f(self, *a, **k):
+                if not top_only or depth[0] == 0:
+                    calls.append(code)
+                depth[0] += 1
+                try:
+                    return orig(self, *a, **k)
+                finally:
+                    depth[0] -= 1
+            return f
+        Rec = type("Rec", (M.ConcurrentCacher,), {
+            "_acquire_read_lock": rec(1, "_acquire_read_lock"), "_release_read_lock": rec(2, "_release_read_lock"),
+            "_acquire_write_lock": rec(3, "_acquire_write_lock"), "_release_write_lock": rec(4, "_release_write_lock"),
+            "_switch_write_to_read_lock": rec(5, "_switch_write_to_read_lock"),
+            "_has_read_lock": rec(9, "_has_read_lock", True), "_has_write_lock": rec(10, "_has_write_lock", True),
+            "_release_read_on_exit": rec(11, "_release_read_on_exit")})
+        if case["what"] == "get_set":
+            cc = Rec(Inner([case["in1"], case["in2"]]))
+            try:
+                cm = cc.get_set("k", lambda: 1)
+                calls.append(12)
+                got = list(calls)
+                with cm:
+                    pass
+            except Boom:
+                got = list(calls)
+            pos = (4 if case["in1"] else 0) + (2 if case["in2"] else 0) + (1 if case.get("fails") else 0)
+            key = "getSet"
+        else:
+            cc = Rec(Inner([case["in1"]]))
+            try:
+                cc.rmv("k")
+            except Boom:
+                pass
+            got = list(calls)
+            pos = (2 if case["in1"] else 0) + (1 if case.get("fails") else 0)
+            key = "rmv"
+        if any(cc._array[cc._index("k")] != 0 for _ in (0,)):
+            fails.append(F("B", "after a single %s (%s) the slot of the key reads %s" % (case["what"], case, cc._array[cc._index("k")]), "array-nonzero-after-exit"))
+        model = None
+        if driver is not None:
+            ans = driver.ask({"op": "proto", "guard": case.get("guard", [1, 0]), "upd": case.get("upd", [1, 1])})
+            model = ans[key][pos]
+            if model != got:
+                fails.append(F("A", "calls made by ConcurrentCacher.%s with membership answers (%s, %s), inner call raising=%s: implementation %s, model %s "
+                               "(codes: 1 acqR 2 relR 3 acqW 4 relW 5 switch 6 in 7 get_set(None) 8 get_set(getter) 9 has_read 10 has_write 11 release_read_on_exit 12 return 13 rmv)"
+                               % (case["what"], case["in1"], case.get("in2"), bool(case.get("fails")), got, model), "A:call-order:" + case["what"]))
+            g, u = case.get("guard", [1, 0]), case.get("upd", [1, 1])
+            xs = [-2, -1, 0, 1, 2]
+            import operator
+            gop = [operator.eq, operator.ge, operator.gt, operator.le, operator.lt, operator.ne][min(g[0], 5)]
+            if ans["guard"] != [bool(gop(x, g[1])) for x in xs] or ans["upd"] != [u[1] if u[0] == 0 else x + u[1] if u[0] == 1 else x - u[1] for x in xs]:
+                fails.append(F("C", "guardHolds/applyUpd of the model differ from Python's operators for %s %s: %s %s" % (g, u, ans["guard"], ans["upd"]), "C:guard-semantics"))
+        return {"fails": fails, "nontrivial": True, "tags": tags, "impl": got, "model": model}
 
     def eval_index(self, case, driver):
         fails, tags = [], ["index-across-interpreters"]
